@@ -56,6 +56,15 @@ func driverCalls(c *core.Ctx) ([]drvCall, []string) {
 				return
 			}
 			m := ruleMethod.FindStringSubmatch(ci.Common().Method.Name())
+			// a session method written as a plain function `f(s *Sess, ...)` is judged as the method it is
+			if obj, isF := fn.Object().(*types.Func); isF && fn.Signature.Recv() == nil && fn.Signature.Params().Len() > 0 {
+				t := fn.Signature.Params().At(0).Type()
+				if pt, isP := t.(*types.Pointer); isP {
+					if nn, isN := pt.Elem().(*types.Named); isN && nn.Obj().Name() == "Sess" && nn.Obj().Pkg() != nil && strings.HasSuffix(nn.Obj().Pkg().Path(), pkgPfcp) {
+						core.PseudoMethod[obj] = true
+					}
+				}
+			}
 			out = append(out, drvCall{fn, ci, m[1], m[2]})
 		})
 	}
@@ -897,7 +906,7 @@ func seidOfRequest(v ssa.Value, fn *ssa.Function) bool {
 			return true
 		}
 	}
-	return false
+	return isInputOfType(fn, v, isUint64T)
 }
 
 // derivesFrom: v is computed from src by method calls on it (addr.String()).
